@@ -103,7 +103,7 @@ theorem step_supplier (st : PState) (hs : st.started = true) (hl : 2 ≤ st.line
     step st (supplierLine indent s) =
       .ok { st with lineNo := st.lineNo + 1, suppliers := supInsert st.suppliers s.code s.name } := by
   simp only [wfSupplier, Bool.and_eq_true, Bool.not_eq_true', bne_iff_ne, ne_eq] at hw
-  obtain ⟨⟨⟨hc, _⟩, _⟩, ht⟩ := hw
+  obtain ⟨⟨⟨⟨hc, _⟩, _⟩, ht⟩, _⟩ := hw
   have h1 : hasSub (tag 1) (supplierLine indent s) = false := noTags_spec ht 1 (by omega) (by omega)
   have htrim : trimLeft blanks (supplierLine indent s) = s.code :: (List.replicate 8 ' ' ++ s.name) := by
     simp only [supplierLine, List.append_assoc, List.cons_append]
